@@ -58,6 +58,17 @@ type pipeServer struct {
 	offGrid   bool
 	// junk > 0: a profile the converter must reject is sent first.
 	junk int
+	// stall: the backend accepts the request and never answers; the call ends
+	// when the caller's deadline does.
+	stall bool
+	// hadDeadline: the last request carried a deadline.
+	hadDeadline bool
+	// failAfter > 0 (with fail): the stream breaks after that many profiles of
+	// the answer were sent, the sync_time trailer included.
+	failAfter int
+	// fat > 0: a valid profile without devices and with that many custom rules
+	// is sent first (a message of some tens of kilobytes).
+	fat int
 }
 
 func ipBytes(a netip.Addr) []byte {
@@ -329,11 +340,41 @@ func (s *pipeServer) GetDNSProfiles(
 	if since := req.SyncTime.AsTime(); !onGrid(since) && !since.Equal(time.Time{}) {
 		s.offGrid = true
 	}
+	_, s.hadDeadline = srv.Context().Deadline()
+	if s.fail && s.failAfter > 0 {
+		// A stream that breaks in the middle: nothing of it may be applied.
+		rs := s.pb.respond(s.lastSince)
+		for k, p := range rs.profs {
+			if k >= s.failAfter {
+				break
+			}
+			if err = srv.Send(p.wire(s.pb.b.devs)); err != nil {
+				return err
+			}
+		}
+		srv.SetTrailer(metadata.Pairs("sync_time", strconv.FormatInt(timeOf(rs.t).UnixMilli(), 10)))
+
+		return status.Error(codes.Unavailable, "verif: scripted backend failure in the middle of the stream")
+	}
 	if s.fail {
 		return status.Error(codes.Unavailable, "verif: scripted backend failure")
 	}
+	if s.stall {
+		<-srv.Context().Done()
+
+		return status.FromContextError(srv.Context().Err()).Err()
+	}
 	rs := s.pb.respond(s.lastSince)
 	s.served = &rs
+	if s.fat > 0 {
+		fp := &backendpb.DNSProfile{DnsId: "p8"}
+		for k := 0; k < s.fat; k++ {
+			fp.CustomRules = append(fp.CustomRules, fmt.Sprintf("||fat-%d.c14.example^", k))
+		}
+		if err = srv.Send(fp); err != nil {
+			return err
+		}
+	}
 	if s.junk > 0 {
 		if err = srv.Send(junkProfile(s.junk)); err != nil {
 			return err
@@ -595,6 +636,9 @@ func (h *harness) runPipelineCase(rng *rand.Rand, srv *pipeServer, ps *backendpb
 			if a, b := canonSettings(p.expected()), canonSettings(res.p); a != b {
 				violate("profile-setting-lost", fmt.Sprintf("%s: the settings of profile %s differ from what the backend sent (tag %d):\n expected %s\n found    %s", o.line(), res.pid, p.tag, a, b))
 			}
+			if what, bad := h.rlCheck(res.p.Ratelimiter, respSzEst, "pipeline"); bad {
+				violate("ratelimiter-behaviour-differs", fmt.Sprintf("%s: profile %s: %s", o.line(), res.pid, what))
+			}
 			if res.p.FilteringEnabled != (p.tag&1 != 0) || res.p.QueryLogEnabled != (p.tag&2 != 0) || res.p.IPLogEnabled != (p.tag&4 != 0) ||
 				res.p.BlockPrivateRelay != (p.tag&8 != 0) || res.p.BlockFirefoxCanary != (p.tag&16 != 0) || res.p.BlockChromePrefetch != (p.tag&32 != 0) {
 				violate("profile-setting-lost", fmt.Sprintf("%s: the flags of profile %s differ from what the backend sent (tag %d)", o.line(), res.pid, p.tag))
@@ -680,7 +724,11 @@ func (h *harness) runPipelineCase(rng *rand.Rand, srv *pipeServer, ps *backendpb
 			full := !synced || rng.IntN(5) == 0
 			auto := afterRestart && rng.IntN(4) != 0
 			failing := synced && rng.IntN(6) == 0
-			srv.fail, srv.served, rec.last, srv.junk = failing, nil, nil, 0
+			srv.fail, srv.served, rec.last, srv.junk, srv.failAfter = failing, nil, nil, 0, 0
+			if failing && rng.IntN(2) == 0 {
+				srv.failAfter = 1 + rng.IntN(2)
+				r.Count("pipeline:sync-failed-in-the-middle-of-the-stream")
+			}
 			if rng.IntN(4) == 0 {
 				srv.junk = 1 + rng.IntN(6)
 			}
